@@ -96,6 +96,15 @@ def gen_script(rnd, tier):
         L.append("pk P %d :" % o)
         L.append("pk O %d :" % o)
         L.append("pk B %d :" % rnd.randint(1, no))
+    if n >= 2 and rnd.random() < 0.4:
+        # an earlier object keeps a declaration built before the class declaration changed (never pickled afterwards: G-settled);
+        # a second object of the same class then declares the same interfaces and IS pickled
+        c = rnd.randint(1, nreal)
+        x, y = rnd.sample(range(1, n + 1), 2)
+        oa, ob = no + 1, no + 2
+        L += ["inst %d : %d" % (oa, c), "inst %d : %d" % (ob, c), "dp %d : %d %d" % (oa, x, y),
+              rnd.choice(["add %d : %d", "only %d : %d", "first %d : %d"]) % (c, x),
+              "dp %d : %d %d" % (ob, x, y), "rprov %d :" % ob, "pk P %d :" % ob, "pk O %d :" % ob, "pk B %d :" % ob]
     for i in range(1, n + 1):
         L.append("pk I %d :" % i)
     L.append("pk E :")
